@@ -96,7 +96,7 @@ def check_c13(ctx, led):
     pat, flags, node, module = ts.patterns[0]
     if set(flags) - {"IGNORECASE", "ASCII"}:
         raise AnalysisError("C13.regex", "regex flags %s are not modelled" % sorted(flags), node, module)
-    check_regex(ctx, led, f, node, module, pat, set(flags))
+    check_regex(ctx, led, f, node, module, pat, set(flags), via_findall=getattr(ts, "via_findall", True))
     try:
         check_loop_idioms(ctx, InfoLedger(led), f)
     except AnalysisError as e:
@@ -104,7 +104,7 @@ def check_c13(ctx, led):
     return max(2, len(ts.ctor_sites))
 
 
-def check_regex(ctx, led, f, call, module, pat, flags):
+def check_regex(ctx, led, f, call, module, pat, flags, via_findall=True):
     where = module.where(f.node)
     ck_rx = "parser.parse_cvss_from_text::regex"
     tree = rx.parse(pat)
@@ -112,7 +112,7 @@ def check_regex(ctx, led, f, call, module, pat, flags):
     # ---- sound: no capturing group
     groups = tree.state.groups - 1 if hasattr(tree, "state") else 0
     led.check(
-        groups == 0,
+        groups == 0 or not via_findall,  # match objects (finditer) give the whole match whatever the groups
         "C13.sound.groups",
         ck_rx,
         module.where(call),
